@@ -1,0 +1,52 @@
+// Copyright ©2011-2012 The bíogo Authors. All rights reserved.
+// Use of this source code is governed by a BSD-style
+// license that can be found in the LICENSE file.
+
+//go:build verif
+
+package morass
+
+import (
+	"io"
+	"os"
+	"sync/atomic"
+)
+
+// Hooks for the external verification harness (build tag verif). When no
+// function is installed the hooks do nothing.
+
+var (
+	verifStepFn atomic.Value // func(string)
+	verifWrapFn atomic.Value // func(*os.File) (io.Writer, io.Reader)
+)
+
+// VerifSetStep installs f to be called at the named steps of Push, write and
+// Finalise. A nil f removes the hook.
+func VerifSetStep(f func(step string)) {
+	if f == nil {
+		f = func(string) {}
+	}
+	verifStepFn.Store(f)
+}
+
+// VerifSetWrap installs f, which may return a writer and a reader to be used
+// for a run file instead of the file itself. A nil f removes the hook.
+func VerifSetWrap(f func(*os.File) (io.Writer, io.Reader)) {
+	if f == nil {
+		f = func(*os.File) (io.Writer, io.Reader) { return nil, nil }
+	}
+	verifWrapFn.Store(f)
+}
+
+func verifStep(step string) {
+	if f, ok := verifStepFn.Load().(func(string)); ok {
+		f(step)
+	}
+}
+
+func verifWrapFile(tf *os.File) (io.Writer, io.Reader) {
+	if f, ok := verifWrapFn.Load().(func(*os.File) (io.Writer, io.Reader)); ok {
+		return f(tf)
+	}
+	return nil, nil
+}
